@@ -662,7 +662,11 @@ where
                                 msg.index, prev_lc, lc2
                             );*/
                             // we merge into the prev. one (so use the prev.one only)
-                            let is_buffered = buffered_lcs.contains(&prev_lc.id);
+                            // if the prev_lc is still buffered but lc2 was confirmed already (e.g. as lc2
+                            // got long enough while prev_lc is short) lc2 has to be handled like for a not
+                            // buffered prev_lc (i.e. merge only if all its msgs are still buffered)
+                            let is_buffered = buffered_lcs.contains(&prev_lc.id)
+                                && buffered_lcs.contains(&lc2.id);
                             if is_buffered {
                                 // the buffered lcs shall be merged again (so lc2 is invalid afterwards)
                                 // todo this is cpu intensive/expensive. try to reduce the likelyhood.
